@@ -1,4 +1,5 @@
 import PharmpyProofs.C10.Lemmas
+import PharmpyProofs.C10.RemoveSafe
 /-
   C10 — Statement dataflow analyses are sound.  Property theorems only.
 
@@ -293,6 +294,24 @@ theorem mask_safe_sound {α : Type} (I : Interp α) (ss : List Stmt) (mask : Lis
     rw [List.map_fst_zip]; omega
   rw [ho] at this
   exact this
+
+/-- **`remove_symbol_definitions` never removes a statement a remaining statement needs and
+    never changes a remaining value** — for every statement list, symbol set, edited statement,
+    interpretation and environment: every symbol that is not defined by a removed statement has
+    the same final value in the reduced program.  (`removeMask_safe`, proved in
+    `RemoveSafe.lean` from the successor-closure of the dependency graph, supplies the
+    certificate for every input.) -/
+theorem remove_symbol_definitions_sound {α : Type} (I : Interp α) (ss : List Stmt)
+    (symbols : List Sym) (i : Nat) (ρ : Env α) :
+    ∀ y, y ∉ taint (ss.zip (removeMask ss symbols i)) →
+      run I ss ρ y = run I (removeSymbolDefinitions ss symbols i) ρ y := by
+  have hlen : (removeMask ss symbols i).length = ss.length := by simp [removeMask]
+  exact mask_safe_sound I ss _ (removeMask_safe ss symbols i) hlen ρ
+
+/-- No kept statement reads a symbol defined by an earlier removed statement (the
+    certificate holds for every input). -/
+theorem remove_symbol_definitions_no_dangling (ss : List Stmt) (symbols : List Sym) (i : Nat) :
+    maskSafe ss (removeMask ss symbols i) = true := removeMask_safe ss symbols i
 
 /-- The result of `remove_symbol_definitions` is a sub-list of the input. -/
 theorem remove_defs_sublist (ss : List Stmt) (symbols : List Sym) (i : Nat) :
